@@ -11,7 +11,7 @@ func TestC02(t *testing.T) {
 	runProp(t, &propSpec{
 		id: "C02",
 		profile: &Profile{
-			Name: "C02", MinSteps: 6, MaxSteps: 32, MaxClient: 4, Fragments: []string{"perm", "chan", "alloc"},
+			Name: "C02", MinSteps: 6, MaxSteps: 32, MaxClient: 4, V6: true, Fragments: []string{"perm", "chan", "alloc"},
 			Weights: map[string]int{"Allocate": 6, "Refresh": 4, "CreatePermission": 14, "ChannelBind": 12, "Send": 3, "ChannelData": 3, "PeerData": 36, "Sleep": 14},
 		},
 		nontrivial: func(st *Stats, _ *Script) bool {
@@ -42,7 +42,7 @@ func TestC05(t *testing.T) {
 	runProp(t, &propSpec{
 		id: "C05",
 		profile: &Profile{
-			Name: "C05", MinSteps: 6, MaxSteps: 30, MaxClient: 2, BigData: true, MTU: true, Streams: true, Fragments: []string{"chan", "perm"},
+			Name: "C05", MinSteps: 6, MaxSteps: 30, MaxClient: 2, BigData: true, MTU: true, Streams: true, V6: true, Fragments: []string{"chan", "perm"},
 			Weights: map[string]int{"Allocate": 4, "Refresh": 2, "CreatePermission": 12, "ChannelBind": 12, "Send": 20, "ChannelData": 20, "PeerData": 30, "Sleep": 6},
 		},
 		nontrivial: func(st *Stats, sc *Script) bool {
@@ -86,7 +86,7 @@ func TestC06(t *testing.T) {
 	runProp(t, &propSpec{
 		id: "C06",
 		profile: &Profile{
-			Name: "C06", MinSteps: 4, MaxSteps: 24, MaxClient: 2, Fragments: []string{"alloc"},
+			Name: "C06", MinSteps: 4, MaxSteps: 24, MaxClient: 2, Fragments: []string{"alloc"}, GenFail: true, V6: true,
 			Weights: map[string]int{"Allocate": 12, "Refresh": 22, "CreatePermission": 8, "ChannelBind": 4, "Send": 10, "ChannelData": 2, "PeerData": 10, "Sleep": 30},
 		},
 		nontrivial: func(st *Stats, _ *Script) bool {
@@ -99,7 +99,7 @@ func TestC07(t *testing.T) {
 	runProp(t, &propSpec{
 		id: "C07",
 		profile: &Profile{
-			Name: "C07", MinSteps: 4, MaxSteps: 24, MaxClient: 2, LongAlloc: true, Fragments: []string{"perm", "chan"},
+			Name: "C07", MinSteps: 4, MaxSteps: 24, MaxClient: 2, LongAlloc: true, V6: true, Fragments: []string{"perm", "chan"},
 			Weights: map[string]int{"Allocate": 3, "Refresh": 8, "CreatePermission": 18, "ChannelBind": 18, "Send": 10, "ChannelData": 8, "PeerData": 12, "Sleep": 26},
 		},
 		nontrivial: func(st *Stats, _ *Script) bool {
